@@ -19,6 +19,9 @@ pub(crate) fn convert(
         return None;
     }
 
+    // Break reference cycles.
+    let state = &state.enter_def(node)?;
+
     // The whole clip path should be ignored when a transform is invalid.
     let mut transform = resolve_clip_path_transform(node, state)?;
 
